@@ -626,6 +626,7 @@ func runC08(w *World, r *Report) {
 	c01Release(w, r, "C08-d")
 	c08Terminators(w, r)
 	runCodecFamily(w, r, "C08-e", codecPairsC08)
+	r.Floor("C08-e", r.countRule("C08-e"), 7)
 	r.Floor("C08-a", r.countRule("C08-a"), 3)
 	r.Floor("C08-b", r.countRule("C08-b"), 1)
 	r.Floor("C08-c", r.countRule("C08-c"), 5)
